@@ -56,9 +56,24 @@ def planOf (es : List Entry) (s : Bytes) : ScriptPlan :=
   ⟨s, group.find? (·.lang.isEmpty),
    (group.filter (!·.lang.isEmpty)).mergeSort fun a b => tagLe a.lang b.lang⟩
 
+def dfltLen (p : ScriptPlan) : Nat :=
+  match p.dflt with
+  | some d => langSysLen d
+  | none => 0
+
+def dfltBytes (p : ScriptPlan) : Bytes :=
+  match p.dflt with
+  | some d => langSysBytes d
+  | none => []
+
+/-- `defaultRecord.offs = uint16(pos)` (0 without a default language system) -/
+def dfltOff (p : ScriptPlan) : Nat :=
+  match p.dflt with
+  | some _ => w16 (4 + 6 * p.langs.length)
+  | none => 0
+
 def planSize (p : ScriptPlan) : Nat :=
-  4 + 6 * p.langs.length + (match p.dflt with | some d => langSysLen d | none => 0) +
-    (p.langs.map langSysLen).sum
+  4 + 6 * p.langs.length + dfltLen p + (p.langs.map langSysLen).sum
 
 /-- offsets of the LangSys tables of the named language systems (with the refusal of the repair) -/
 def langOffsets : List Entry → Nat → Outcome (List Nat)
@@ -72,14 +87,11 @@ def langOffsets : List Entry → Nat → Outcome (List Nat)
 def scriptTableBytes (p : ScriptPlan) : Outcome Bytes :=
   if p.langs.any (fun e => e.lang.length != 4) then .panic "invalid language"
   else
-    let pos0 := 4 + 6 * p.langs.length
-    let dOff := match p.dflt with | some _ => w16 pos0 | none => 0
-    let pos1 := pos0 + (match p.dflt with | some d => langSysLen d | none => 0)
-    match langOffsets p.langs pos1 with
+    match langOffsets p.langs (4 + 6 * p.langs.length + dfltLen p) with
     | .ok offs =>
-      .ok (wordsToBytes [dOff, w16 p.langs.length] ++
+      .ok (wordsToBytes [dfltOff p, w16 p.langs.length] ++
         (p.langs.zip offs).flatMap (fun q => q.1.lang ++ be16 q.2) ++
-        (match p.dflt with | some d => langSysBytes d | none => []) ++
+        dfltBytes p ++
         p.langs.flatMap langSysBytes)
     | .err e => .err e
     | .panic s => .panic s
@@ -103,9 +115,8 @@ def allTables : List ScriptPlan → Outcome Bytes
       | o => o
     | o => o
 
-/-- `ScriptListInfo.encode` for a non-nil map (entries in any order, distinct tag pairs) -/
-def encode (es : List Entry) : Outcome Bytes :=
-  let plans := (scriptsOf es).map (planOf es)
+/-- the layout: header, script records, script tables in the order of `plans` -/
+def encodePlans (plans : List ScriptPlan) : Outcome Bytes :=
   match scriptOffsets plans (2 + 6 * plans.length) with
   | .ok offs =>
     match allTables plans with
@@ -115,6 +126,12 @@ def encode (es : List Entry) : Outcome Bytes :=
     | .panic s => .panic s
   | .err e => .err e
   | .panic s => .panic s
+
+/-- the scripts sorted by tag, each with its default and its sorted named language systems -/
+def plansOf (es : List Entry) : List ScriptPlan := (scriptsOf es).map (planOf es)
+
+/-- `ScriptListInfo.encode` for a non-nil map (entries in any order, distinct tag pairs) -/
+def encode (es : List Entry) : Outcome Bytes := encodePlans (plansOf es)
 
 /-! ### readScriptList -/
 
